@@ -485,3 +485,117 @@ K("_nsi_cross_transitivity", "core", props=("C11", "C02", "C04", "C20"),
                    "node_v==nodes1[v] and weight_v==node_weights[nodes1[v]] and node_p==nodes2[p] and weight_p==node_weights[nodes2[p]]",
                    "ppv==weight_p*weight_p*weight_v", f"m=={_M} and n=={_Nn}"]},
   checks=("bounds", "narrow"))
+
+# ============================================================================ raw-pointer C functions (C20, C18, C10)
+_FIT = "<=%d" % INT32
+K("_spearman_corr", "climate", lang="c", props=("C20", "C10"),
+  requires=["m>=0", "tmax>=0", "extent(final_mask)==m*tmax", "extent(time_series_ranked)==m*tmax",
+            "extent(spearman_rho)==m*m", "m*m" + _FIT, "m*tmax" + _FIT],
+  loops={"i": ["zerocount==0"], "i.j": ["zerocount==0"], "i.j.t": ["0<=zerocount and zerocount<=t"],
+         "i.j.t#2": ["0<=zerocount and zerocount<=tmax"], "i.j.t#3": ["0<=zerocount and zerocount<=tmax"],
+         "i.j.t#4": ["0<=zerocount and zerocount<=tmax"]},
+  checks=("bounds", "overflow"), modifies=["spearman_rho"])
+
+K("_mutual_information", "climate", lang="c", props=("C20", "C10"),
+  requires=["N>=0", "n_samples>=0", "n_bins>=1", "extent(anomaly)==N*n_samples", "extent(symbolic)==N*n_samples",
+            "extent(hist)==N*n_bins", "extent(hist2d)==n_bins*n_bins", "extent(mi)==N*N",
+            "N*N" + _FIT, "N*n_samples" + _FIT, "N*n_bins" + _FIT, "n_bins*n_bins" + _FIT,
+            "scaling>=0", "all(anomaly[q]>=range_min for q in range(N*n_samples))"],
+  loops={"i": ["in_samples==i*n_samples", "in_bins==i*n_bins",
+               "all(0<=symbolic[q] and symbolic[q]<n_bins for q in range(i*n_samples))"],
+         "i.k": ["offset(p_anomaly)==in_samples+k", "offset(p_symbolic)==in_samples+k",
+                 "all(0<=symbolic[q] and symbolic[q]<n_bins for q in range(i*n_samples+k))"],
+         "i#2": ["in_samples==i*n_samples", "in_bins==i*n_bins", "in_nodes==i*N",
+                 "all(0<=symbolic[q] and symbolic[q]<n_bins for q in range(N*n_samples))"],
+         "i#2.j": ["jn_samples==j*n_samples", "jn_bins==j*n_bins", "offset(p_mi)==in_nodes+j", "offset(p_mi2)==i+j*N",
+                   "all(0<=symbolic[q] and symbolic[q]<n_bins for q in range(N*n_samples))"],
+         "i#2.j.k": ["offset(p_symbolic1)==in_samples+k", "offset(p_symbolic2)==jn_samples+k"],
+         "i#2.j.l": ["offset(p_hist1)==in_bins+l", "ln_bins==l*n_bins"],
+         "i#2.j.l.m": ["offset(p_hist2)==jn_bins+m", "offset(p_hist2d)==ln_bins+m"],
+         "i#2.j.l#2": ["ln_bins==l*n_bins"],
+         "i#2.j.l#2.m": ["offset(p_hist2d)==ln_bins+m"]},
+  checks=("bounds", "narrow"), modifies=["symbolic", "hist", "hist2d", "mi"])
+
+K("_test_pearson_correlation_fast", "timeseries", lang="c", props=("C20", "C10"),
+  requires=["N>=0", "n_time>=0", "extent(original_data)==N*n_time", "extent(surrogates)==N*n_time",
+            "extent(correlation)==N*N", "N*N" + _FIT, "N*n_time" + _FIT],
+  loops={"i.j": ["offset(p_correlation)==i*N+j"],
+         "i.j.k": ["offset(p_original)==i*n_time+k", "offset(p_surrogates)==j*n_time+k"]},
+  checks=("bounds", "overflow"), modifies=["correlation"])
+
+_SYM = "all(0<=symbolic_original[q] and symbolic_original[q]<n_bins and 0<=symbolic_surrogates[q] and symbolic_surrogates[q]<n_bins for q in range({hi}))"
+K("_test_mutual_information_fast", "timeseries", lang="c", props=("C20", "C10"),
+  requires=["N>=0", "n_time>=0", "n_bins>=1", "extent(original_data)==N*n_time", "extent(surrogates)==N*n_time",
+            "extent(symbolic_original)==N*n_time", "extent(symbolic_surrogates)==N*n_time",
+            "extent(hist_original)==N*n_bins", "extent(hist_surrogates)==N*n_bins", "extent(hist2d)==n_bins*n_bins",
+            "extent(mi)==N*N", "N*N" + _FIT, "N*n_time" + _FIT, "N*n_bins" + _FIT, "n_bins*n_bins" + _FIT,
+            "scaling>=0", "all(original_data[q]>=range_min and surrogates[q]>=range_min for q in range(N*n_time))"],
+  loops={"i": ["in_time==i*n_time", "in_bins==i*n_bins", _SYM.format(hi="i*n_time")],
+         "i.k": ["offset(p_original)==in_time+k", "offset(p_surrogates)==in_time+k",
+                 "offset(p_symbolic_original)==in_time+k", "offset(p_symbolic_surrogates)==in_time+k",
+                 _SYM.format(hi="i*n_time+k")],
+         "i#2": ["in_time==i*n_time", "in_bins==i*n_bins", _SYM.format(hi="N*n_time")],
+         "i#2.j": ["jn_time==j*n_time", "jn_bins==j*n_bins", "offset(p_mi)==i*N+j", _SYM.format(hi="N*n_time")],
+         "i#2.j.k": ["offset(p_symbolic_original)==in_time+k", "offset(p_symbolic_surrogates)==jn_time+k"],
+         "i#2.j.l": ["offset(p_hist_original)==in_bins+l"],
+         "i#2.j.l.m": ["offset(p_hist_surrogates)==jn_bins+m", "offset(p_hist2d)==l*n_bins+m"],
+         "i#2.j.l#2.m": ["offset(p_hist2d)==l*n_bins+m"]},
+  checks=("bounds", "narrow"),
+  modifies=["symbolic_original", "symbolic_surrogates", "hist_original", "hist_surrogates", "hist2d", "mi"])
+
+K("_vertex_current_flow_betweenness_fast", "core", lang="c", props=("C20", "C18"),
+  requires=["N>=0", "0<=i and i<N", "extent(admittance)==N*N", "extent(R)==N*N", "N*N" + _FIT],
+  checks=("bounds", "overflow"))
+K("_edge_current_flow_betweenness_fast", "core", lang="c", props=("C20", "C18"),
+  requires=["N>=0", "extent(admittance)==N*N", "extent(R)==N*N", "extent(ECFB)==N*N", "N*N" + _FIT],
+  checks=("bounds", "overflow"), modifies=["ECFB"])
+
+# ---- Cython wrappers that hand raw data pointers to C: the call must satisfy the C contract
+# (extent / element-width / contiguity obligations arise at the `<T*> PyArray_DATA(x)` casts and at the call)
+def _wrap(name, module, callee, requires, props=("C20",)):
+    c = K(name, module, props=props, requires=requires, checks=("bounds", "overflow", "narrow", "width", "contig", "pre", "buffer"))
+    c.callee_contracts = {callee: REG[callee][0].contract}
+    return c
+
+
+_wrap("spearman_corr", "climate", "_spearman_corr",
+      ["m>=0", "tmax>=0", "shape(final_mask,0)==m", "shape(final_mask,1)==tmax", "shape(time_series_ranked,0)==m",
+       "shape(time_series_ranked,1)==tmax", "m*m" + _FIT, "m*tmax" + _FIT], props=("C20", "C10"))
+_wrap("mutual_information", "climate", "_mutual_information",
+      ["N>=0", "n_samples>=0", "n_bins>=1", "shape(anomaly,0)==N", "shape(anomaly,1)==n_samples",
+       "N*N" + _FIT, "N*n_samples" + _FIT, "N*n_bins" + _FIT, "n_bins*n_bins" + _FIT, "scaling>=0",
+       "all(anomaly[a,b]>=range_min for a in range(N) for b in range(n_samples))"], props=("C20", "C10"))
+_wrap("_test_pearson_correlation", "timeseries", "_test_pearson_correlation_fast",
+      ["N>=0", "n_time>=1", "shape(original_data,0)==N", "shape(original_data,1)==n_time",
+       "shape(surrogates,0)==N", "shape(surrogates,1)==n_time", "N*N" + _FIT, "N*n_time" + _FIT], props=("C20", "C10"))
+_wrap("_vertex_current_flow_betweenness", "core", "_vertex_current_flow_betweenness_fast",
+      ["N>=0", "0<=i and i<N", "shape(admittance,0)==N", "shape(admittance,1)==N", "shape(R,0)==N", "shape(R,1)==N",
+       "contiguous(admittance) and contiguous(R)", "N*N" + _FIT], props=("C20", "C18"))
+_wrap("_edge_current_flow_betweenness", "core", "_edge_current_flow_betweenness_fast",
+      ["N>=0", "shape(admittance,0)==N", "shape(admittance,1)==N", "shape(R,0)==N", "shape(R,1)==N",
+       "contiguous(admittance) and contiguous(R)", "N*N" + _FIT], props=("C20", "C18"))
+
+_wrap("_test_mutual_information", "timeseries", "_test_mutual_information_fast",
+      ["N>=1", "n_time>=1", "n_bins>=1", "shape(original_data,0)==N", "shape(original_data,1)==n_time",
+       "shape(surrogates,0)==N", "shape(surrogates,1)==n_time", "N*N" + _FIT, "N*n_time" + _FIT, "N*n_bins" + _FIT,
+       "n_bins*n_bins" + _FIT], props=("C20", "C10"))
+
+# ============================================================================ core: cliquishness (C03, C20)
+for _order, _nm in ((4, "_local_cliquishness_4thorder"), (5, "_local_cliquishness_5thorder")):
+    _d = "degree_i"
+    _loops = {"i": ["shape(neighbors,0)==N"],
+              "i.j": ["0<=index and index<=j"],
+              "i.j#2": [f"0<=counter and counter<=j*{_d}*{_d}" + (f"*{_d}" if _order == 5 else ""), f"0<={_d} and {_d}<=N"],
+              "i.j#2.k": [f"0<=counter and counter<=j*{_d}*{_d}" + (f"*{_d}+k*{_d}*{_d}" if _order == 5 else f"+k*{_d}"),
+                          f"0<={_d} and {_d}<=N"],
+              "i.j#2.k.l": [f"0<=counter and counter<=j*{_d}*{_d}" + (f"*{_d}+k*{_d}*{_d}+l*{_d}" if _order == 5 else f"+k*{_d}+l"),
+                            f"0<={_d} and {_d}<=N"]}
+    if _order == 5:
+        _loops["i.j#2.k.l.m"] = [f"0<=counter and counter<=j*{_d}*{_d}*{_d}+k*{_d}*{_d}+l*{_d}+m", f"0<={_d} and {_d}<=N"]
+    for _k in _loops:
+        _loops[_k] = _loops[_k] + ["all(0<=neighbors[q] and neighbors[q]<N for q in range(N))"]
+    K(_nm, "core", props=("C03", "C20"),
+      requires=["N>=0", "N<=32767", "shape(A,0)==N", "shape(A,1)==N", "shape(degree,0)==N",
+                "all(0<=degree[a] and degree[a]<=N for a in range(N))",
+                "all(0<=A[a,b] and A[a,b]<=1 for a in range(N) for b in range(N))"],
+      loops=_loops, checks=("bounds", "overflow", "narrow", "divzero"))
